@@ -218,10 +218,22 @@ impl Property for C02 {
         }
 
         // re-representations of the same point sets (ring start and direction, member order, wrappers): same answers
-        for r in 0..2u64 {
+        for r in 0..4u64 {
             let sel = crate::engine::splitmix64(0x51ed27 ^ r ^ (c.a.coords().len() as u64 * 31 + c.b.coords().len() as u64));
-            let (va, vb) = if r == 0 { (crate::conv::variant(&c.a, sel), c.b.clone()) } else { (c.a.clone(), crate::conv::variant(&c.b, sel)) };
-            if !(in_relate_domain(&va) && in_relate_domain(&vb)) {
+            let (va, vb) = match r {
+                0 => (crate::conv::variant(&c.a, sel), c.b.clone()),
+                1 => (c.a.clone(), crate::conv::variant(&c.b, sel)),
+                // representation noise: a repeated vertex, an empty member (still valid, same point set)
+                2 => (crate::conv::noisy(&c.a, sel), c.b.clone()),
+                _ => (c.a.clone(), crate::conv::noisy(&c.b, sel)),
+            };
+            if r >= 2 {
+                if va == c.a && vb == c.b {
+                    continue;
+                }
+                obs.label("variant:noise");
+            }
+            if !(in_relate_domain(&crate::conv::denoise(&va)) && in_relate_domain(&crate::conv::denoise(&vb))) {
                 continue;
             }
             let (gva, gvb) = (to_geo(&va, &c.xf), to_geo(&vb, &c.xf));
